@@ -1,4 +1,10 @@
 \* cost of enumerating the emitted term ranges (open finding: judged in a run of its own)
+CONSTANTS
+  B = 16
+  L = 16
+  G = 7
+  ShiftStart = 32
+  FE = 11
 SPECIFICATION Spec
 CHECK_DEADLOCK FALSE
 INVARIANTS SplitEnumBounded
